@@ -44,7 +44,8 @@ ASSUMPTIONS = [
     'scope limits of the rule (oracle silent or not judged): operator fields together with the '
     'full-document oracle (judged per field instead), flag values other than 0/1/true/false, '
     'mixed inclusion/exclusion, colliding paths, empty path components, positional "$", '
-    '"_id.x" paths, `_id: 1` in a $project exclusion',
+    '"_id.x" paths (`_id: 1` next to excluded fields of a $project is INSIDE the domain since '
+    'the stage accepts it: the former class idinexclusion is gone)',
     '$elemMatch is judged relative to the real matcher filter_applies (C01 covers the matcher)',
     'find_one_and_* picks its target on the full document (fix: commit in /repo) and returns the '
     'projection of that document, empty or not',
